@@ -436,9 +436,19 @@ var checkC15 = register("C15/ops", func(c opsCase) string {
 	pristine0 := pr0.snap() // a plain decode of the input before any history
 	defaultReport0 := pr0.reportDefault() // the option-less report before any history
 	exports0 := exportAll(pr0)            // template exports before any history
+	var immediate *snapshot // observation of A taken right after an assignment, before anything else ran
 	check := func(step int, o op) string {
 		tw := twin()
-		sa, st := strip(a.snap()), strip(tw.snap())
+		sa := strip(a.snap())
+		if immediate != nil {
+			// what A answered immediately after the assignment (nothing else was scored in
+			// between) is what must equal the twin; A's later answer must equal it too
+			if d := strip(*immediate).diff(sa); d != "" {
+				return fmt.Sprintf("after step %d (%+v) the object answered differently right after the assignment and a moment later: %s", step, o, d)
+			}
+			immediate = nil
+		}
+		st := strip(tw.snap())
 		if d := sa.diff(st); d != "" {
 			return fmt.Sprintf("after step %d (%+v) the queried object differs from a freshly built twin: %s", step, o, d)
 		}
@@ -507,9 +517,15 @@ var checkC15 = register("C15/ops", func(c opsCase) string {
 				continue
 			}
 			val, ok := fieldValue(c.Ver, o.Field, o.Index)
-			if !ok || !a.setField(o.Field, val) {
+			if !ok {
 				continue
 			}
+			a.snap() // query, assign, query — with no other object touched in between
+			if !a.setField(o.Field, val) {
+				continue
+			}
+			im := a.snap()
+			immediate = &im
 			assigns = append(assigns, o)
 			reference = strip(twin().snap())
 		case "redecode":
